@@ -52,6 +52,12 @@ def canonical(net):
 
 def install(e):
     smt.AXIOMS.extend(axioms())
+    _install_basic(e)
+    install_proxy(e)
+    install_proxy2(e)
+
+
+def _install_basic(e):
 
     # ---- socket.inet_aton (assumed) ---------------------------------------------------------------
     def aton_res(c, a):
@@ -149,3 +155,217 @@ def install(e):
                    raises=[(ValueError, None, pu_bad)], havoc=lambda c, a, old, k: None, props=("C18", "C10"),
                    doc="(hostname, explicit port or 80 / 443, (path or '/') + ('?' + query if any), scheme == 'wss') for ws / wss URLs with a "
                        "host; anything else (no ':', other scheme, no host, bad port) -> ValueError; no other effect (nothing touches the network)"))
+
+
+# ===================================================================== no_proxy exemption and proxy selection (C19)
+npE = z3.Function("np_entry", Int, S)          # entries of the no_proxy list in effect
+npF = z3.Function("np_dot_entry", Int, S)      # its sub-list of entries starting with "."
+np_src = z3.Function("np_src", Int, Int)
+np_pos = z3.Function("np_pos", Int, Int)
+ain = z3.Function("addr_in_net", S, S, smt.Bool)   # value returned by _is_address_in_network (a pure function of its arguments)
+env_has = z3.Function("env_has", S, smt.Bool)
+env_val = z3.Function("env_val", S, S)
+fields_len = z3.Function("fields_len", S, Int)
+fields_at = z3.Function("fields_at", S, Int, S)
+DOT = z3.StringVal(".")
+
+
+def strip_dots(d):
+    return _M.str_lstrip1(d, DOT)
+
+
+def dmatch(host, d):
+    """host belongs to the leading-dot domain d: the domain itself or a sub-domain, on a label boundary."""
+    sd = strip_dots(d)
+    return z3.Or(host == sd, z3.SuffixOf(z3.Concat(DOT, sd), host))
+
+
+def exempt_spec(host, n, E):
+    j = z3.Int("j!x")
+    rng = lambda body: z3.Exists([j], z3.And(0 <= j, j < n, body))
+    return z3.Or(rng(E(j) == z3.StringVal("*")), rng(E(j) == host),
+                 z3.And(inet_ok(host), rng(z3.And(is_cidr(E(j)), ain(host, E(j))))),
+                 z3.And(z3.Not(inet_ok(host)), rng(z3.And(z3.PrefixOf(DOT, E(j)), dmatch(host, E(j))))))
+
+
+def install_proxy(e):
+    from pyvc.interp import mk
+    # _is_address_in_network is a function of its arguments: tie its result to `ain`
+    c_ain = e.contracts[U + "_is_address_in_network"]
+    base = c_ain.ensures
+    c_ain.ensures = lambda c, old, a, res: z3.And(base(c, old, a, res), z(res, "bool") == ain(z(a["ip"]), z(a["net"])))
+    c_ain.ghost_entry = None
+    # when its body is verified `ain` is still unconstrained for these arguments: define it by the result (a pure function)
+    k = z3.Int("k")
+    j = z3.Int("j")
+
+    def env_get(c, a):
+        args = a["$args"]
+        name = z(args[0])
+        default = args[1] if len(args) > 1 else None
+        if default is None:
+            return OptV(z3.Not(env_has(name)), SV("str", env_val(name)))
+        return SV("str", z3.If(env_has(name), env_val(name), z(default)))
+    e.add(Contract("real:_Environ.get", assumed=True, result=env_get, havoc=lambda c, a, old, k_: None,
+                   doc="os.environ.get(name[, default]): the process environment is an unconstrained map (ghost functions env_has / env_val)"))
+
+    def np_list(c, n):
+        return c.alloc("list", None, SymSeq(n, lambda c_, i: mk("str", npE(z(i, "int"))), "no_proxy", fn=npE))
+
+    def split_env(c, val, sep, maxsplit, node):
+        # v.split(","): the entries of the environment value; they become the list in effect
+        v = z(val)
+        n = SV("int", fields_len(v))
+        c.assume(fields_len(v) >= 1)
+        c.assume(z3.ForAll([j], z3.Implies(z3.And(0 <= j, j < fields_len(v)), fields_at(v, j) == npE(j)), patterns=[npE(j)]))
+        c.ghost["$np_len"] = n
+        return np_list(c, n)
+    e.split_hooks["_is_no_proxy_host"] = split_env
+
+    def comp_hook(c, interp, node):
+        """the two list comprehensions of _is_no_proxy_host over the (abstract) no_proxy list."""
+        fr = c.frames[-1]
+        np_ = fr.locals.get("no_proxy")
+        if not (isinstance(np_, Ref) and isinstance(c.cell(np_).data, SymSeq) and c.cell(np_).data.fn is not None):
+            return None
+        seq = c.cell(np_).data
+        n = z(seq.length, "int")
+        src = ast_src(node)
+        host = z(fr.locals["hostname"])
+        if "_is_address_in_network" in src:
+            jj = z3.Int("j!x")
+            val = z3.Exists([jj], z3.And(0 <= jj, jj < n, z3.And(is_cidr(npE(jj)), ain(host, npE(jj)))))
+            return ("$anylist", val)
+        if "startswith" in src:
+            m = smt.fresh(Int, "ndot")
+            c.assume(m >= 0)
+            c.assume(z3.ForAll([k], z3.Implies(z3.And(0 <= k, k < m),
+                                               z3.And(0 <= np_src(k), np_src(k) < n, npF(k) == npE(np_src(k)), z3.PrefixOf(DOT, npF(k)))), patterns=[npF(k)]))
+            c.assume(z3.ForAll([j], z3.Implies(z3.And(0 <= j, j < n, z3.PrefixOf(DOT, npE(j))),
+                                               z3.And(0 <= np_pos(j), np_pos(j) < m, npF(np_pos(j)) == npE(j))), patterns=[npE(j)]))
+            c.ghost["$ndot"] = SV("int", m)
+            return c.alloc("list", None, SymSeq(SV("int", m), lambda c_, i: mk("str", npF(z(i, "int"))), "dot_entries", fn=npF))
+        return None
+    e.comprehension_hooks.setdefault("_is_no_proxy_host", []).append(comp_hook)
+    import builtins
+    base_any = e.models.call_table[builtins.any]
+
+    def any_model(c, a, kw, n_):
+        if isinstance(a[0], tuple) and len(a[0]) == 2 and a[0][0] == "$anylist":
+            return mk("bool", a[0][1])
+        return base_any(c, a, kw, n_)
+    e.models.call_table[builtins.any] = any_model
+
+    def nph_inv(c, fr, entry):
+        host = z(fr.locals["hostname"])
+        i = z(fr.locals["$i0"], "int")
+        return z3.ForAll([k], z3.Implies(z3.And(0 <= k, k < i), z3.Not(dmatch(host, npF(k)))), patterns=[npF(k)])
+    e.loop("_is_no_proxy_host", 0, inv=nph_inv, shapes={"endDomain": "str", "domain": "str"})
+
+    def nph_case(kind):
+        def case(c):
+            host = c.fresh("str", "hostname")
+            if kind == "option":
+                n = c.fresh("int", "n_entries")
+                c.assume(n.t >= 1)
+                c.ghost["$np_len"] = n
+                return dict(hostname=host, no_proxy=np_list(c, n))
+            return dict(hostname=host, no_proxy=None)
+        return case
+
+    def nph_post(c, old, a, res):
+        host = z(a["hostname"])
+        if a["no_proxy"] is None:
+            v = _M.str_replace_all(z3.If(env_has(z3.StringVal("no_proxy")), env_val(z3.StringVal("no_proxy")),
+                                         z3.If(env_has(z3.StringVal("NO_PROXY")), env_val(z3.StringVal("NO_PROXY")), z3.StringVal(""))),
+                                   z3.StringVal(" "), z3.StringVal(""))
+            n = z3.If(z3.Length(v) > 0, fields_len(v), 0)
+            listed = z3.Implies(z3.Length(v) > 0, z3.ForAll([j], z3.Implies(z3.And(0 <= j, j < fields_len(v)), fields_at(v, j) == npE(j)), patterns=[npE(j)]))
+            return z3.Implies(listed, z(res, "bool") == exempt_spec(host, n, npE))
+        n = z(c.ghost["$np_len"], "int")
+        return z(res, "bool") == exempt_spec(host, n, npE)
+    e.add(Contract(U + "_is_no_proxy_host", cases=[("no_proxy-option", nph_case("option")), ("environment", nph_case("env"))],
+                   ensures=nph_post, result=lambda c, a: c.fresh("bool", "exempt"), havoc=lambda c, a, old, k_: None, props=("C19",),
+                   doc="exempt <=> the no_proxy list in effect (option if non-empty, else the comma separated no_proxy / NO_PROXY variable with "
+                       "blanks removed) contains '*', the host itself, a CIDR block containing the host's IPv4 address, or - for a host that is "
+                       "not an IP address - a leading-dot domain to which it belongs on a label boundary"))
+
+
+def ast_src(node):
+    import ast
+    try:
+        return ast.unparse(node)
+    except Exception:
+        return ""
+
+
+def install_proxy2(e):
+    """get_proxy_info (C19)."""
+    from pyvc.interp import mk
+    b64 = z3.Function("b64", Sq, Sq)
+    e.b64 = b64
+    unq = z3.Function("unquote", S, S)
+    x = z3.Const("x", Sq)
+    smt.AXIOMS.append(z3.ForAll([x], smt.wf_utf8(_M.bytes_strip(b64(x))), patterns=[b64(x)]))
+    e.add(Contract("base64:encodebytes", assumed=True, result=lambda c, a: SV("bytes", b64(z(a["$args"][0]))), havoc=lambda c, a, old, k: None,
+                   doc="base64.encodebytes: an uninterpreted function of its argument whose output is ASCII"))
+    e.add(Contract("urllib.parse:unquote", assumed=True, requires=lambda c, a: z3.BoolVal(a["$args"][0] is not None),
+                   result=lambda c, a: SV("str", unq(z(a["$args"][0]))), havoc=lambda c, a, old, k: None,
+                   doc="unquote(s): an uninterpreted function of a str argument (None is a TypeError: required to be impossible)"))
+
+    def gpi_case(npkind):
+        def case(c):
+            d = dict(hostname=c.fresh("str", "hostname"), is_secure=c.fresh("bool", "is_secure"),
+                     proxy_host=c.fresh(("opt", "str"), "proxy_host"), proxy_port=c.fresh("int", "proxy_port"),
+                     proxy_auth=c.fresh(("opt", ("tuple", ["str", "str"])), "proxy_auth"))
+            if npkind == "option":
+                n = c.fresh("int", "n_entries")
+                c.assume(n.t >= 1)
+                c.ghost["$np_len"] = n
+                d["no_proxy"] = c.alloc("list", None, SymSeq(n, lambda c_, i: mk("str", npE(z(i, "int"))), "no_proxy", fn=npE))
+            else:
+                d["no_proxy"] = None
+            return d
+        return case
+
+    def envvar(lower):
+        lo, up = z3.StringVal(lower), z3.StringVal(lower.upper())
+        return _M.str_replace_all(z3.If(env_has(lo), env_val(lo), z3.If(env_has(up), env_val(up), z3.StringVal(""))), z3.StringVal(" "), z3.StringVal(""))
+
+    def gpi_post(c, old, a, res):
+        host = z(a["hostname"])
+        ph = a["proxy_host"]
+        has_opt = z3.And(z3.Not(zn(ph)), z3.Length(z(unopt(ph))) > 0) if unopt(ph) is not None else z3.BoolVal(False)
+        rh, rp, ra = res
+        none_triple = z3.And(zn(rh), z3.BoolVal(tag_of(rp) != "opt" and not isinstance(rp, SV)) if False else (z(rp, "int") == 0 if tag_of(rp) in ("int", "bool") else z3.BoolVal(False)), zn(ra))
+        ex = c.ghost.get("$exempt")
+        if ex is None:
+            return z3.BoolVal(False)
+        exempt = z(ex, "bool")
+        envv = z3.If(z(a["is_secure"], "bool"), envvar("https_proxy"), envvar("http_proxy"))
+        p = c.ghost.get("$parsed")
+        from_opt = z3.And(z3.Not(zn(rh)), (z(unopt(rh)) == z(unopt(ph))) if unopt(rh) is not None and unopt(ph) is not None else z3.BoolVal(False),
+                          (z(rp, "int") == z(a["proxy_port"], "int")) if tag_of(rp) in ("int", "bool") else z3.BoolVal(False),
+                          z(a["proxy_port"], "int") != 0, e.interp.same_value(c, ra, a["proxy_auth"]))
+        if p is not None:
+            from_env = z3.And(z3.Length(envv) > 0, e.interp.same_value(c, rh, p.attrs["hostname"]), e.interp.same_value(c, rp, p.attrs["$port"]))
+        else:
+            from_env = z3.BoolVal(False)
+        return z3.And(z3.Implies(exempt, none_triple),
+                      z3.Implies(z3.And(z3.Not(exempt), has_opt), from_opt),
+                      z3.Implies(z3.And(z3.Not(exempt), z3.Not(has_opt), z3.Length(envv) > 0), from_env),
+                      z3.Implies(z3.And(z3.Not(exempt), z3.Not(has_opt), z3.Length(envv) == 0), none_triple))
+
+    def gpi_noport(c, old, a):
+        ph = a["proxy_host"]
+        has_opt = z3.And(z3.Not(zn(ph)), z3.Length(z(unopt(ph))) > 0) if unopt(ph) is not None else z3.BoolVal(False)
+        return z3.And(has_opt, z(a["proxy_port"], "int") == 0)
+    # remember the exemption verdict used by this call (ghost)
+    e.after_call[("get_proxy_info", "_is_no_proxy_host")] = lambda c, fr, r: c.ghost.__setitem__("$exempt", r)
+    e.add(Contract(U + "get_proxy_info", cases=[("no_proxy-option", gpi_case("option")), ("environment", gpi_case("env"))],
+                   ensures=gpi_post,
+                   result=lambda c, a: (c.fresh(("opt", "str"), "phost"), c.fresh(("opt", "int"), "pport"), c.fresh(("opt", ("tuple", ["str", "str"])), "pauth")),
+                   raises=[(X.WebSocketProxyException, gpi_noport, None), (ValueError, None, None)], havoc=lambda c, a, old, k: None,
+                   props=("C19",),
+                   doc="exempt target: (None, 0, None); else the proxy given by option (a port is required); else the scheme's variable "
+                       "(http_proxy for ws, https_proxy for wss, lower-case name first, blanks removed) parsed as a URL; else no proxy"))
